@@ -6,6 +6,15 @@ TRUST = "Trusted base: TLC 1.8 and the CommunityModules Json module; the Go harn
 claimed = {
  "C01": dict(design="6/C01", technique="TLA+ spec BtData/BtRow checked by TLC (MC_BtMut); TLC-enumerated transitions replayed on the real emulator and recorded executions validated by TLC trace checking (BtTrace), all three engines",
    text="Bounded model checking of the mutation semantics (every single mutation and pair over a boundary universe, all reachable states with <=2 cells) plus conformance in both directions: every sampled/enumerated model transition is replayed through real gRPC on btree, leveldb-mem and leveldb-disk with a full read-back after each request, and random programs over adversarial keys/timestamps are trace-validated step by step. This is the right level because the property quantifies over all programs: the model covers the small universe exhaustively and the trace check evaluates the full state after every step of every execution."),
+ "C12": dict(design="6/C12", technique="TLA+ spec BtData.CheckAndMutate + BtFilter checked by TLC (MC_BtCam: BranchLaw, NoPredLaw); TLC transitions replayed and recorded executions trace-validated by TLC, three engines",
+   text="Bounded model checking of CheckAndMutateRow over a basis of 29 predicate filters (including value-stripping, zero-limit and invalid ones) x row states x pairs of mutation lists, with the design laws (exactly the selected branch is applied with MutateRow semantics; no predicate = row has a cell) as action properties; every enumerated transition and random programs with predicate trees to depth 2 are executed on the real emulator, each request preceded by a read through the same filter, and predicate_matched, status and the full read-back are validated by TLC."),
+ "C13": dict(design="6/C13", technique="TLA+ spec BtRow.Rmw checked by TLC (MC_BtRmw: RmwLaws); TLC transitions replayed and recorded executions trace-validated by TLC, three engines",
+   text="Bounded model checking of ReadModifyWriteRow (rule lists up to 3 over two columns and an unknown family, prior cells before/at/after the clock, 8-byte/short/empty values, extreme increments) with the timestamp-arbitration, wrap-around and response laws as action properties; every enumerated transition and random rule lists are executed on the real emulator with an injected clock and the response row and the full read-back are validated by TLC."),
+ "C14": dict(design="6/C14", technique="TLA+ spec BtData admin actions checked by TLC (MC_BtAdmin: Frame, DropLaw, FailedIsNoop); TLC transitions replayed and recorded executions trace-validated by TLC, three engines",
+   text="Bounded model checking of create/get/list/delete table, ModifyColumnFamilies lists (including ones whose later element fails) and DropRowRange over two parents, three tables, keys p, p\\xff, p\\xff\\x00, q with frame and drop laws as action properties; enumerated transitions and random admin/data programs are executed on the real emulator and every reply plus the read-back of every table under every parent is validated by TLC."),
+ "C16": dict(design="6/C16", technique="TLA+ spec BtGC/BtData.GcPass checked by TLC (MC_BtGc: PassLaw, sequential-form refinement); TLC transitions replayed and recorded executions trace-validated by TLC, three engines",
+   text="Bounded model checking of the GC policy over all rule trees of depth <= 2 and columns with cells at the cut-off +-1 ms (PassLaw: exactly the condemned cells go, family without rule untouched; the implementation's sequential application equals the set semantics); enumerated transitions and random programs with forced passes (scripted clock) and the collector's own busy/idle decision are executed on the real emulator and the read-back validated by TLC.",
+   note=TRUST + " Clauses covered so far: policy (what a pass removes), emptied rows, quiescence decision. The clause about writes acknowledged while a pass is running (lock reversal windows) is not yet covered by this check."),
 }
 hook_commits = subprocess.run(['git','-C','/repo','log','--format=%H %s'],capture_output=True,text=True).stdout.splitlines()
 hook_commits = [l.split()[0] for l in hook_commits if l.split(' ',1)[1].startswith('verif hooks')]
